@@ -103,17 +103,32 @@ func dumpAll(s *simkv.Sim, keys []string) string {
 func TestRouting(t *testing.T) {
 	rapid.Check(t, func(t *rapid.T) {
 		engine := rapid.SampledFrom([]string{"mem", "pebble"}).Draw(t, "engine")
-		n := rapid.SampledFrom([]int{1, 3, 4, 8}).Draw(t, "partitions")
-		missing := -1
+		n := rapid.SampledFrom([]int{1, 2, 3, 4, 8}).Draw(t, "partitions")
+		// which partitions of the namespace this server hosts: all, all but one, or any non-empty
+		// subset (down to exactly one partition of many, as on a node of a spread-out cluster)
+		notHosted := map[int]bool{}
 		var hosted []int
-		if n > 1 && rapid.IntRange(0, 2).Draw(t, "hostall") == 0 {
-			missing = rapid.IntRange(0, n-1).Draw(t, "missing")
-			for i := 0; i < n; i++ {
-				if i != missing {
-					hosted = append(hosted, i)
+		if n > 1 {
+			switch rapid.IntRange(0, 2).Draw(t, "hostall") {
+			case 0:
+				notHosted[rapid.IntRange(0, n-1).Draw(t, "missing")] = true
+			case 1:
+				keep := rapid.IntRange(0, n-1).Draw(t, "keepone")
+				for i := 0; i < n; i++ {
+					if i != keep && rapid.Bool().Draw(t, "drop") {
+						notHosted[i] = true
+					}
+				}
+			}
+			if len(notHosted) > 0 {
+				for i := 0; i < n; i++ {
+					if !notHosted[i] {
+						hosted = append(hosted, i)
+					}
 				}
 			}
 		}
+		missing := keysOf(notHosted)
 		// namespace life cycle: the name may have been used before with another partition count
 		stale := 0
 		if rapid.IntRange(0, 3).Draw(t, "recreated") == 0 {
@@ -136,7 +151,7 @@ func TestRouting(t *testing.T) {
 			if len(tr) > 50 {
 				tr = tr[len(tr)-50:]
 			}
-			t.Fatalf("%s\n%d partitions, not hosted here: %d\ntrace:\n  %s", fmt.Sprintf(format, a...), n, missing, strings.Join(tr, "\n  "))
+			t.Fatalf("%s\n%d partitions, not hosted here: %v\ntrace:\n  %s", fmt.Sprintf(format, a...), n, missing, strings.Join(tr, "\n  "))
 		}
 		nt := false
 		wrote := false
@@ -173,7 +188,10 @@ func TestRouting(t *testing.T) {
 				dup = dup || seen[c[ki]]
 				seen[c[ki]] = true
 			}
-			touchesMissing := missing >= 0 && partsTouched[missing]
+			touchesMissing := false
+			for p := range partsTouched {
+				touchesMissing = touchesMissing || notHosted[p]
+			}
 			if len(keyIdx) > 1 && len(partsTouched) >= 2 && dup {
 				nt = true
 				labels["multi_key_cross_partition_with_duplicate"] = true
@@ -194,7 +212,7 @@ func TestRouting(t *testing.T) {
 					isErr = isErr || v.Kind == 'e'
 				}
 				if !isErr {
-					fail("command %s names a key of partition %d, which this server does not host, and was answered %s instead of being rejected", gen.Quote(c), missing, rep)
+					fail("command %s names a key of a partition this server does not host (not hosted: %v), and was answered %s instead of being rejected", gen.Quote(c), missing, rep)
 				}
 				if after := dumpAll(sim, pool.Keys); after != before {
 					fail("rejected command %s changed data on a hosted partition", gen.Quote(c))
@@ -246,7 +264,7 @@ func TestRouting(t *testing.T) {
 					}
 				}
 			}
-			if owner == missing {
+			if notHosted[owner] {
 				continue
 			}
 			for _, rc := range [][]string{{"get", k}, {"hgetall", k}, {"lrange", k, "0", "-1"}, {"smembers", k}, {"zrange", k, "0", "-1", "withscores"}} {
@@ -263,10 +281,13 @@ func TestRouting(t *testing.T) {
 		}
 		sort.Strings(ls)
 		ls = append(ls, fmt.Sprintf("partitions_%d", n))
+		if len(hosted) == 1 {
+			ls = append(ls, "server_hosts_exactly_one_partition_of_many")
+		}
 		if stale > 0 {
 			ls = append(ls, "name_used_before_with_other_partition_count")
 		}
-		recRoute.Record(stats.HashString(fmt.Sprintf("%d|%d|%d|%s", n, missing, stale, strings.Join(canon, "\x1e"))), nt, ls, func() interface{} {
+		recRoute.Record(stats.HashString(fmt.Sprintf("%d|%v|%d|%s", n, missing, stale, strings.Join(canon, "\x1e"))), nt, ls, func() interface{} {
 			tr := trace
 			if len(tr) > 30 {
 				tr = tr[:30]
